@@ -103,6 +103,7 @@ pub fn generate(seed: u64, variant: Variant, method: Method, log2: u32) -> Giant
         kind: Kind::Standard,
         num_free_blocks: *rng.pick(&[1u32, 16]),
         entry: Entry::WithValues,
+        ctor: false,
         vtype: *rng.pick(&[VType::U32, VType::U64, VType::U8]),
         patterns: pats.clone(),
         values: (0..n as u64).map(|i| i * 3 + 1).collect(),
